@@ -117,3 +117,52 @@ def c16_select_step(ctx, v):
             seen += 1
         v.covers_total += 1
         v.covers_sat += 1 if seen else 0
+
+
+def c16_mark_as_failed_step(ctx, v):
+    """mark_as_failed(id, hash, peer) on a queue of 1..=3 entries (ids and 32-byte hashes symbolic,
+    equal ids allowed — a fork at one height): exactly the first entry whose id AND hash both
+    match becomes Failed; every other entry keeps its status (a sibling at the same height that
+    is still being fetched is not disturbed); an unknown (id, hash) changes nothing."""
+    from .models import value_eq
+    body = ctx.body(r"blockchain_sync_state::<impl at [^>]*>::mark_as_failed$")
+    for n in (1, 2, 3):
+        ex = ctx.executor(loop_bound=n + 3, inline="auto", max_paths=6000)
+        state, entries, ids, sts, rts, peer, batch, pre, fetching_pre = _state(ctx, ex, n)
+        # drop the strict ordering precondition: equal ids are the interesting case
+        pre = [p for p in pre if "ULT" not in p.sexpr()[:8]] if False else pre
+        hs = [e.fields[ctx.field_index("BlockData", "block_hash")] for e in entries]
+        st = S.State()
+        st.pc.extend([peer.bv != 0] + [L.enum_in_range(s, 4) for s in sts])
+        fid = ex.fresh_value("u64", "failed.id")
+        fh = ex.fresh_value("[u8; 32]", "failed.hash")
+        outs = ex.run(body, [S.Ref(S.Cell(state), (), True), fid, fh, peer], st)
+        v.paths += len(outs)
+        match = [z3.And(ids[i].bv == fid.bv, value_eq(ex, hs[i], fh)) for i in range(n)]
+        first = [z3.And(match[i], *[z3.Not(match[j]) for j in range(i)]) for i in range(n)]
+        seen = 0
+        for o in outs:
+            if o.kind in ("unsupported", "unwound", "path-limit"):
+                return v.undecided("n=%d %s %s" % (n, o.kind, o.info))
+            if o.kind == "panic":
+                v.fail("n=%d panic %s" % (n, o.info))
+                continue
+            if o.kind != "return":
+                continue
+            post = o.state.frames[0].locals["_1"].v.cell.v
+            pdeq = post.fields[ctx.field_index("BlockchainSyncState", "blocks_to_fetch")].entries[0][2].v
+            for i in range(n):
+                ps = pdeq.items[i].fields[ctx.field_index("BlockData", "status")]
+                dd = ex.discr_of(ps)
+                pd = dd.bv if isinstance(dd, S.I) else z3.BitVecVal(dd, 64)
+                checks = [("the entry that failed is not marked Failed", z3.And(first[i], pd != FAILED)),
+                          ("an entry other than the one that failed changed its status (a different block at the same height, or with the same hash, is disturbed)", z3.And(z3.Not(first[i]), pd != sts[i].discr.bv))]
+                for what, bad in checks:
+                    r, m = ex.model_for(o.pc, bad)
+                    v.queries += 1
+                    if r == z3.sat:
+                        v.fail("queue of %d: %s" % (n, what), dict(entry=i, ids=[m.eval(x.bv, model_completion=True).as_long() for x in ids], failed_id=m.eval(fid.bv, model_completion=True).as_long(),
+                                                                   same_hash=[str(m.eval(value_eq(ex, hs[k], fh), model_completion=True)) for k in range(n)]))
+            seen += 1
+        v.covers_total += 1
+        v.covers_sat += 1 if seen else 0
